@@ -19,6 +19,7 @@ tie: T-acc — the observed execution order of every scheduler (traced while the
 import itertools
 from common import *
 import sched_common as sc
+import rtlfoot
 
 def ff_perms(n, rng, limit):
   if n <= 1: return [None]
@@ -96,6 +97,9 @@ def check_design(ctx, g, cls, k, cycles, nsimple, nforced, ffl, coq_cases, coq_m
   # hypothesis validation (frame / dep) on one instance, block by block
   top = sc.build(cls, 'forced', rng=random.Random(1), seed=0)
   fpl = sc.Footprints(top)
+  # blocks inside the RTL language: PROVED footprints (RTL/FootprintSound.v) must be covered by pymtl3's declared ones,
+  # and the translated block must evaluate like the real one (validates translators/rtlblk2coq.py)
+  rtlfoot.check_blocks(ctx, top, fpl, src, g.name)
   roots_inv = {v: kx for kx, v in fpl.roots.items()}
   # top-level signals of one net share one storage object after lock_in_simulation: alias classes
   alias = {}
@@ -179,14 +183,15 @@ Definition case_ok (c : design * list (list nat)) : bool :=
                          [f"let '(d, os) := {coq_cases[i]} in (wf_design d, sw_ok d, nsl_ok d, noinv_ok d, map (sched_ok d) os)"])
     ctx.violation(f'C01:acceptor:{name}', f'design {name}: Coq acceptor rejects (wf, single-writer, no-self-loop, no-inversion, per-schedule ok) = {parts[0][:300]}',
                   {'design_source': src, 'schedules': dict(zip(onames, orders)), 'acceptor_result': parts[0]})
+  rtlfoot.run_corpus(ctx); rtlfoot.finish(ctx)
   ctx.sample({'design': coq_meta[0][0], 'source_tail': coq_meta[0][1][-600:], 'observed_orders': dict(zip(coq_meta[0][2], coq_meta[0][3]))})
   ctx.extra.update({'designs': len(coq_cases), 'distinct_observed_linear_extensions': distinct_orders})
 
 def main(ctx):
-  ctx.trusted += ['harness/sched_common.py: design generator, mapping of pymtl3 signal objects to bit intervals, execution-order tracer (sys.setprofile)']
-  ctx.assumptions += ['block footprints are pymtl3\'s own read/write analysis (AstHelper), mapped to bit intervals; the frame/dep hypotheses of the theorems are validated dynamically per executed block, not proved, for user blocks',
+  ctx.trusted += ['translators/rtlblk2coq.py (update block AST -> RTL/Syntax term; validated on every run by evaluating the translated block in Coq against the real block on sampled states)', 'harness/sched_common.py: design generator, mapping of pymtl3 signal objects to bit intervals, execution-order tracer (sys.setprofile)']
+  ctx.assumptions += ['for update blocks inside the RTL language of RTL/Syntax.v (about 95% of generated blocks) frame/dep are PROVED for the syntactic footprints (C01_rtl_frame/dep) and pymtl3\'s declared footprints are checked in Coq to cover them; for the remaining blocks the footprints are pymtl3\'s own analysis and frame/dep are validated dynamically per executed block',
                       'designs are drawn from the RTL generator in sched_common.Gen (Bits/struct/list signals, slices, fields, nets, child components, explicit U<U constraints)']
-  ctx.build_props(extra_models=['theories/Sched/Accept.vo'])
+  ctx.build_props(extra_models=['theories/Sched/Accept.vo', 'theories/RTL/Footprint.vo'])
   try:
     run(ctx)
   except Exception as e:
